@@ -180,7 +180,10 @@ func expectExact(op string, a, b operand) string {
 			}
 			r := new(big.Int).Exp(big.NewInt(a.I), big.NewInt(b.I), nil)
 			if !r.IsInt64() {
-				return ""
+				// beyond the integer range the result is a float near the exact value (the operator itself
+				// switches to float there); an integer that wrapped around is not
+				f, _ := new(big.Float).SetInt(r).Float64()
+				return "F~" + strconv.FormatFloat(f, 'g', -1, 64)
 			}
 			return snapI(r.Int64())
 		case "&", "|", "^":
@@ -396,7 +399,13 @@ func c03JudgePair(pool *sb.Pool, rec *sb.Rec, a, b operand) []*failure {
 			res[op] = v
 		}
 		if i < len(c03Ops) {
-			if want := expectExact(op, a, b); want != "" && res[op] != want {
+			if want := expectExact(op, a, b); strings.HasPrefix(want, "F~") {
+				wf, _ := strconv.ParseFloat(want[2:], 64)
+				gf, err := strconv.ParseFloat(strings.TrimPrefix(res[op], "f:"), 64)
+				if !strings.HasPrefix(res[op], "f:") || err != nil || math.Abs(gf-wf) > 1e-9*math.Abs(wf) {
+					mk("cell:exact:"+op+":"+kinds+":beyond-int-range", fmt.Sprintf("$a %s $b: want a float near %s got %s", op, want[2:], clip(res[op], 120)))
+				}
+			} else if want != "" && res[op] != want {
 				mk("cell:exact:"+op+":"+kinds, fmt.Sprintf("$a %s $b: want %s got %s", op, want, clip(res[op], 120)))
 			}
 		}
